@@ -1,6 +1,7 @@
 """C01 — providedBy/implementedBy report exactly the declared and inherited interfaces
 (DESIGN.md section 5, C01)."""
 import json
+import os
 from .. import common as C
 
 ID = "C01"
@@ -14,7 +15,31 @@ THEOREMS = [
     "C01_non_interference", "C01_history_non_interference", "C01_cache_entries_fresh",
     "C01_stale_cache_refuted_without_eviction", "C01_class_instance_no_leak",
     "C01_noLongerProvides_raises_iff", "C01_closure_is_reachability", "C01_ledger_impl_is_inheritance",
+    "C01_generated_add_interfaces_to_cls_eq_model", "C01_generated_Provides_changed_eq_model",
+    "C01_generated_classImplements_ordered_eq_model", "C01_generated_classImplements_eq_model",
+    "C01_generated_classImplementsOnly_eq_model", "C01_generated_classImplementsFirst_eq_model",
+    "C01_generated_Provides_eq_model", "C01_generated_directlyProvidedBy_eq_model",
+    "C01_generated_directlyProvides_eq_model", "C01_generated_alsoProvides_eq_model",
+    "C01_generated_noLongerProvides_eq_model", "C01_generated_step_eq_model",
+    "C01_generated_cache_keys_unique",
 ]
+DECL_PY = os.path.join(C.REPO, "src", "zope", "interface", "declarations.py")
+GEN = os.path.join(C.COQ, "Gen", "DeclKernel.v")
+
+
+def regenerate(run):
+    """Re-translate the declaration kernel of declarations.py into coq/Gen/DeclKernel.v (fail
+    closed); Proofs/DeclKernel.v and the C01_generated_* theorems are re-checked against it."""
+    from ..translate import decl as TR
+    try:
+        C.write_if_changed(GEN, TR.translate_file(DECL_PY))
+        return []
+    except Exception as e:  # refuse, report, keep the pipeline alive on the pinned kernel
+        C.write_if_changed(GEN, TR.pinned())
+        return ["harness/translate/decl.py refused %s (%s: %s); coq/Gen/DeclKernel.v holds the pinned kernel, so "
+                "the C01_generated_* theorems of Properties/C01.v are NOT about the current source"
+                % (DECL_PY, type(e).__name__, e)]
+
 RULE = ("histories of 3-30 steps over <= 6 interfaces (random DAG), <= 5 classes (multiple inheritance, created at "
         "any point, also after declarations on their bases), <= 6 instances (created and dropped at any point), all "
         "nine declaration calls on classes, instances and class objects; all four query forms + directlyProvidedBy "
@@ -24,7 +49,12 @@ RULE = ("histories of 3-30 steps over <= 6 interfaces (random DAG), <= 5 classes
         "contains an instance-level and a class-level declaration; distinct = distinct tag set x size bucket")
 TRUSTED_BASE = ["'interfaces a specification implies = interfaces reachable through __bases__' (the subject of C02/C03) "
                 "is the model's working definition of isOrExtends/flattened; validated by this correspondence",
-                "class __bases__ are never reassigned; unique interface (name, module) keys"]
+                "class __bases__ are never reassigned; unique interface (name, module) keys",
+                "harness/translate/decl.py (fail-closed Python-ast translator of the eleven kernel functions of "
+                "declarations.py) and the primitives of coq/Model/DeclKernelPrims.v that stand for the object protocol "
+                "(implementedBy, Specification.__setBases/changed notification, Provides.__init__, ClassProvides.__init__, "
+                "_normalizeargs, Declaration.__sub__/interfaces(), getattr(ob,'__provides__'), providedBy): hand-written, "
+                "validated by the correspondence"]
 ASSUMPTIONS = ["declaration arguments are interfaces (not Declarations/Implements objects), `Interface` itself is never declared",
                "metaclass is `type`; no super() objects, no old-style __implemented__, no builtin types"]
 
@@ -554,16 +584,23 @@ def extra(run, impl, known):
 
 
 TECHNIQUE = ("Coq proof by induction over histories of a Gallina model of declarations.py (class specifications, "
-             "Provides stripping, the InstanceDeclarations cache with eviction) against an abstract ledger; vm_compute "
-             "correspondence with both implementations and a ledger-sandwich oracle on the implementation's answers")
-LEVEL_TEXT = ("Machine-checked theorems (Properties/C01.v, closed under the global context) state for every history of "
-              "the nine declaration calls, class/instance creation and drops that the model's providedBy/implementedBy "
-              "answers equal the ledger's lower bound and lie in the admissible sandwich, that declarations on other "
-              "instances never matter (history-level non-interference, which needs the cache eviction: refuted for the "
-              "model without it), and that class-object declarations never leak to instances; the model is compared with "
-              "the C and Python implementations on generated histories on every run and the implementation's raw answers "
-              "are judged by the ledger inside Coq.")
-LEVEL_NOTE = ("Trusted: Coq kernel/vm_compute; 'implied = reachable' (C02/C03) as working definition; eager creation of "
-              "class specifications and no weak death of cache entries in the model (both validated by the tie: lazy "
-              "queries, drops + gc). Not modelled: Declaration/Implements arguments, Interface as declared interface, "
-              "super(), metaclasses, builtins.")
+             "Provides stripping, the InstanceDeclarations cache with eviction) against an abstract ledger; the eleven "
+             "kernel functions are re-translated from the source text on every run (fail-closed ast translator) and proved "
+             "equal to the model; vm_compute correspondence with both implementations and a ledger-sandwich oracle on the "
+             "implementation's answers")
+LEVEL_TEXT = ("Machine-checked theorems (Properties/C01.v, 24 theorems, closed under the global context) state for every "
+              "history of the nine declaration calls, class/instance creation and drops that the model's providedBy/"
+              "implementedBy answers equal the ledger's lower bound and lie in the admissible sandwich, that declarations "
+              "on other instances never matter (history-level non-interference, which needs the cache eviction: refuted for "
+              "the model without it), and that class-object declarations never leak to instances; thirteen "
+              "C01_generated_* theorems state that _classImplements_ordered, classImplements, classImplementsOnly, "
+              "classImplementsFirst, _add_interfaces_to_cls, the Provides factory, Provides.changed, directlyProvides, "
+              "alsoProvides, noLongerProvides and directlyProvidedBy AS TRANSLATED FROM THE CURRENT SOURCE TEXT equal the "
+              "model's definitions on every state; the model is also compared with the C and Python implementations on "
+              "generated histories on every run and the implementation's raw answers are judged by the ledger inside Coq.")
+LEVEL_NOTE = ("Trusted: Coq kernel/vm_compute; the translator and the object-protocol primitives it targets; 'implied = "
+              "reachable' (C02/C03) as working definition; eager creation of class specifications and no weak death of "
+              "cache entries in the model (both validated by the tie: lazy queries, drops + gc). Hand-modelled, not "
+              "translated: implementedBy, Specification.changed propagation, Provides/ClassProvides constructors, "
+              "_normalizeargs, Declaration.__sub__, the descriptor protocol, providedBy. Not modelled: Declaration/"
+              "Implements arguments, Interface as declared interface, super(), metaclasses, builtins.")
